@@ -521,6 +521,8 @@ impl Check for RwCheck {
             "C06R" => "the C03 workload (rewriting over LA: cyclic classes, classes whose cheapest node has redundant slots); after every rewrite iteration an Extractor for one of three strictly monotone cost functions is built and every live class with a finite term is extracted under three invocations (identity, renamed, own slots permuted) and checked as in C06; non-trivial = at least one iteration changed the e-graph and 3 extractions were checked; distinct = distinct canonical key",
             "C13R" => "the C03 workload as a history: after every operation (insertions and rewrite iterations) the equal pairs recorded at earlier points, all old handles, per-term slot counts and the direction of the progress measure are re-checked; non-trivial = at least one change and at least one recorded pair re-checked; distinct = distinct canonical key",
             "C07S" => "explanations build: the C03 workload (rewriting over LA through apply_rewrites and Runner::run, conditional rules, rules that move terms under binders; without the b[x := t] rule and the modify hook); after every iteration explain_equivalence is asked why sampled inserted terms equal the smallest term of their class and each other, and the proof DAG is re-checked by M_proof with explicit leaves accepted only as instances of a pool rule carrying that rule's name; non-trivial = at least one iteration changed the e-graph and at least one rule leaf was checked; distinct = distinct canonical key",
+            "C05R" => "the C03 workload (rewriting over LA: big, cyclic, redundant-slot classes); after every iteration the left patterns of the rules just applied and of 3 further pool rules are matched with ematch_all: every substitution binds every variable, the instantiated pattern is found by bottom-up lookup (nothing inserted), the fingerprint is unchanged; non-trivial = at least one iteration changed the e-graph and 5 substitutions were validated; distinct = distinct canonical key",
+            "C09R" => "the C03 workload; after every iteration sampled inserted terms (alpha-renamed) and the smallest term of their class are looked up (lookup_rec_expr must succeed, agree with the old handle, leave the fingerprint unchanged) and inserted again (no class may be allocated, the result equals the old handle and carries exactly the canonical handle's slots); non-trivial = at least one iteration changed the e-graph and 3 terms were re-inserted; distinct = distinct canonical key",
             "C08R" => "the C03 workload (rewriting over LA with analysis, modify hook, both substitution methods) checked only for C08's clauses: no panic / fuel exhaustion in any operation, EGraph::check and the API-level structure clauses after every operation; non-trivial = at least one iteration changed the e-graph; distinct = distinct canonical key",
             _ => "",
         }
@@ -553,6 +555,8 @@ impl Check for RwCheck {
         let c06 = self.id == "C06R";
         let c13 = self.id == "C13R";
         let c07 = self.id == "C07S";
+        let c05 = self.id == "C05R";
+        let c09 = self.id == "C09R";
         let prop = if c08 { "C08" } else { self.id };
         let cost_kind = [SimCost::Size, SimCost::PositionWeighted, SimCost::OpWeighted][(run.get("oracle_seed") % 3) as usize];
         let mut recorded_pairs: Vec<(AppliedId, AppliedId, usize)> = Vec::new();
@@ -590,6 +594,88 @@ impl Check for RwCheck {
                 }
                 if c07 && (op.name == "rewrite" || op.name == "runner") {
                     return super::explain::check_rw_proofs(&mut s, p, &mut orng, &mut out, k);
+                }
+                if c05 && (op.name == "rewrite" || op.name == "runner") {
+                    let pool = rule_pool(p);
+                    let skip = if op.name == "runner" { 1 } else { 0 };
+                    let mut idxs: Vec<usize> = op.i.iter().skip(skip).map(|i| i.rem_euclid(pool.len() as i64) as usize).collect();
+                    for _ in 0..3 {
+                        idxs.push(orng.below(pool.len()));
+                    }
+                    idxs.sort();
+                    idxs.dedup();
+                    for ri in idxs {
+                        let rule = &pool[ri];
+                        let cp: Pattern<LA> = rule.l.to_pattern::<LA>(&mut s.nm);
+                        let mut vars = Vec::new();
+                        rule.l.vars(&mut vars);
+                        let fp0 = (state_hash(&s.eg), s.eg.total_number_of_nodes());
+                        let ms = ematch_all(&s.eg, &cp);
+                        let fp1 = (state_hash(&s.eg), s.eg.total_number_of_nodes());
+                        if fp0 != fp1 {
+                            return Some(viol("C05", "matching_modifies", format!("ematch_all({}) changed the fingerprint", rule.l), k));
+                        }
+                        out.count("single_matches", ms.len() as u64);
+                        for m in ms.iter().take(40) {
+                            for v in &vars {
+                                if !m.contains_key(&pvar_name(*v)) {
+                                    return Some(viol("C05", "all_variables_bound", format!("ematch_all({}) returned a substitution without ?{v}: {m:?}", rule.l), k));
+                                }
+                            }
+                            if let Err(e) = super::matching::lookup_pattern(&cp, m, &s.eg) {
+                                return Some(viol("C05", "match_is_represented", format!("ematch_all({}) returned {m:?} but {e}", rule.l), k));
+                            }
+                            out.bump("substitutions_validated");
+                        }
+                    }
+                    return None;
+                }
+                if c09 && (op.name == "rewrite" || op.name == "runner") {
+                    let nt = s.tracked.len();
+                    if nt == 0 {
+                        return None;
+                    }
+                    let ex = Extractor::<LA, AstSize>::new(&s.eg, AstSize);
+                    let mut cands: Vec<(Tm, AppliedId)> = Vec::new();
+                    for _ in 0..4 {
+                        let i = orng.below(nt);
+                        let h = s.tracked[i].h.clone();
+                        let mut fr = 7000 + 50 * k as S;
+                        let t = s.tracked[i].tm.rename(&BTreeMap::new(), &mut fr);
+                        cands.push((t, h.clone()));
+                        let small = ex.extract(&s.eg.find_applied_id(&h), &s.eg);
+                        cands.push((from_re::<LA>(&small, &mut s.nm), h));
+                    }
+                    drop(ex);
+                    for (t, h) in cands {
+                        let re = to_re::<LA>(&t, &mut s.nm);
+                        let fp0 = (state_hash(&s.eg), s.eg.total_number_of_nodes(), s.eg.progress().number_of_classes);
+                        let found = lookup_rec_expr(&re, &s.eg);
+                        let fp1 = (state_hash(&s.eg), s.eg.total_number_of_nodes(), s.eg.progress().number_of_classes);
+                        if fp0 != fp1 {
+                            return Some(viol("C09", "lookup_modifies", format!("lookup_rec_expr({t}) changed the e-graph"), k));
+                        }
+                        let Some(found) = found else {
+                            return Some(viol("C09", "present_not_found", format!("{t} is represented (inserted earlier or extracted from the class of an inserted term) but lookup_rec_expr fails"), k));
+                        };
+                        if !s.eg.eq(&found, &h) {
+                            return Some(viol("C09", "lookup_result_not_equal_existing", format!("lookup_rec_expr({t}) = {found:?} is not equal to the existing invocation {h:?}"), k));
+                        }
+                        let added = s.eg.add_expr(re);
+                        let fp2 = (state_hash(&s.eg), s.eg.total_number_of_nodes(), s.eg.progress().number_of_classes);
+                        if fp2.2 != fp0.2 {
+                            return Some(viol("C09", "known_term_creates_class", format!("add_expr({t}) allocated {} classes although the term is represented", fp2.2 - fp0.2), k));
+                        }
+                        if !s.eg.eq(&added, &h) || !s.eg.eq(&added, &found) {
+                            return Some(viol("C09", "result_not_equal_existing", format!("add_expr({t}) = {added:?} is not equal to the existing invocation {h:?} / lookup result {found:?}"), k));
+                        }
+                        let canon = s.eg.find_applied_id(&h);
+                        if added.slots() != canon.slots() {
+                            return Some(viol("C09", "result_slots", format!("add_expr({t}) = {added:?} but the canonical handle is {canon:?}"), k));
+                        }
+                        out.bump("terms_reinserted");
+                    }
+                    return None;
                 }
                 if c14 {
                     let raw_unions = run.ops.iter().any(|o| o.name == "union");
@@ -668,6 +754,10 @@ impl Check for RwCheck {
                         out.violations.push(panic_violation("C13", "old_handle_unusable", &pn, k));
                     } else if c07 {
                         out.violations.push(panic_violation("C07", "explain_returns", &pn, k));
+                    } else if c05 {
+                        out.violations.push(panic_violation("C05", "matching_panics", &pn, k));
+                    } else if c09 {
+                        out.violations.push(panic_violation("C09", "no_panic", &pn, k));
                     } else {
                         out.discarded = Some("panic_in_query".into());
                     }
@@ -697,7 +787,7 @@ impl Check for RwCheck {
         let recomputed = out.counters.get("classes_recomputed").copied().unwrap_or(0);
         let extr = out.counters.get("extractions_checked").copied().unwrap_or(0);
         let rechecked = out.counters.get("recorded_pairs_rechecked").copied().unwrap_or(0);
-        out.nontrivial = out.discarded.is_none() && changes >= 1 && ((c03 && evals >= 50) || (c14 && recomputed >= 10) || c08 || (c06 && extr >= 3) || (c13 && rechecked >= 1) || (c07 && out.counters.get("rule_leaves_checked").copied().unwrap_or(0) >= 1));
+        out.nontrivial = out.discarded.is_none() && changes >= 1 && ((c03 && evals >= 50) || (c14 && recomputed >= 10) || c08 || (c06 && extr >= 3) || (c13 && rechecked >= 1) || (c05 && out.counters.get("substitutions_validated").copied().unwrap_or(0) >= 5) || (c09 && out.counters.get("terms_reinserted").copied().unwrap_or(0) >= 3) || (c07 && out.counters.get("rule_leaves_checked").copied().unwrap_or(0) >= 1));
         out
     }
 }
